@@ -60,6 +60,12 @@ Variant(j) ==
   THEN [id |-> ToString(<<"gq", hs, j>>), fam |-> "stroke", kind |-> IF (h \div 11) % 5 = 0 THEN "clip" ELSE "fill",
         w |-> SIZE, h |-> SIZE, den |-> 2, ops |-> ops, rule |-> IF (h \div 3) % 2 = 0 THEN "NonZero" ELSE "EvenOdd",
         ctm |-> Transforms[((h \div 5) % Len(Transforms)) + 1]]
+  ELSE IF FAM = "cstroke"
+  THEN [id |-> ToString(<<"gq", hs, j>>), fam |-> "stroke", kind |-> "stroke", w |-> SIZE, h |-> SIZE, den |-> 2, ops |-> ops,
+        \* similarity transforms only (discs stay discs); widths 5, 6, 8 px in user space
+        ctm |-> << Transforms[1], Transforms[3], Transforms[5], Transforms[6], Transforms[7] >>[((h \div 5) % 5) + 1],
+        style |-> [width |-> <<10, 12, 16>>[((h \div 11) % 3) + 1], cap |-> <<"Round", "Butt", "Round", "Square">>[((h \div 13) % 4) + 1],
+                   join |-> "Round", miter |-> <<4, 1>>]]
   ELSE [id |-> ToString(<<"gq", hs, j>>), fam |-> "flatten", den |-> 2, ops |-> ops, rule |-> IF (h \div 3) % 2 = 0 THEN "NonZero" ELSE "EvenOdd",
         tol |-> Tols[((h \div 5) % Len(Tols)) + 1]]
 Emit == (fin /\ HasCurve) => \A j \in 0..(NVAR - 1) : PrintT(ToJson(Variant(j)))
